@@ -69,6 +69,10 @@ type c44World struct {
 	sp       []*c44Tx // valid state-proof transactions, in order
 	accum    bool
 	stat     map[string]int
+	// what the calls made so far oblige the pool to: esync = an OnNewBlock for a block at or
+	// above evalRound was delivered since the ledger last grew (then the pool must work on latest+1)
+	esync     bool
+	evalRound basics.Round
 }
 
 func (w *c44World) num(a basics.Address) int {
@@ -245,7 +249,7 @@ func (w *c44World) obs(res string) []interface{} {
 	}
 	sync := w.inSync()
 	replay := -1
-	if sync {
+	if w.esync {
 		replay, _ = w.oracle(raw, nil, false)
 	}
 	w.pool.mu.Lock()
@@ -255,13 +259,13 @@ func (w *c44World) obs(res string) []interface{} {
 	w.pool.pendingMu.RLock()
 	over := w.pool.stateproofOverflowed
 	w.pool.pendingMu.RUnlock()
-	return vL(vSym(res), ids, nsp, over, npwb, ftm, w.pool.FeePerByte(), sync, replay)
+	return vL(vSym(res), ids, nsp, over, npwb, ftm, w.pool.FeePerByte(), sync, w.esync, replay)
 }
 
 func (w *c44World) remember(g []*c44Tx) string {
 	stx := c44Stxns(g)
 	would := 2
-	if w.inSync() {
+	if w.esync {
 		_, would = w.oracle(w.pool.PendingTxGroups(), stx, true)
 	}
 	err := w.pool.Remember(stx)
@@ -526,6 +530,7 @@ func (w *c44World) newGroup() []*c44Tx {
 // ---- blocks ----
 func (w *c44World) commit(vb ledgercore.ValidatedBlock) {
 	require.NoError(w.t, w.l.AddValidatedBlock(vb, agreement.Certificate{}))
+	w.esync = false
 	groups, err := vb.Block().DecodePaysetGroups()
 	require.NoError(w.t, err)
 	gl := make([]interface{}, 0, len(groups))
@@ -630,6 +635,10 @@ func (w *c44World) onNewBlock(vb ledgercore.ValidatedBlock, mode int) {
 		}
 	}
 	w.pool.OnNewBlock(vb.Block(), delta)
+	if vb.Block().Round() >= w.evalRound {
+		w.evalRound = w.l.Latest() + 1
+		w.esync = true
+	}
 	if vEnvInt("VERIF_C44_DEBUG", 0) == 1 {
 		for _, x := range w.sp {
 			if _, txErr, _ := w.pool.Lookup(x.stxn.ID()); txErr != "" {
@@ -809,6 +818,8 @@ func (w *c44World) startPool(out *vOut, nOps int, noSPBlocks bool) {
 	w.maxsize = cfg.TxPoolSize
 	ledgerTerm := w.ledgerTerm()
 	w.pool = MakeTransactionPool(w.l, cfg, logging.Base(), nil)
+	w.evalRound = w.l.Latest() + 1
+	w.esync = true
 	w.ops = nil
 	w.history(nOps, noSPBlocks)
 	w.pool.Shutdown()
